@@ -366,6 +366,29 @@ fn btok(r: &Result<bool, ()>) -> String {
     }
 }
 
+/// Oracles on the two parts an accessor pair returns: the localpart has no colon (and no NUL where
+/// the specification forbids it), the server name is one the `ServerName` parser accepts.
+fn parts_ok(t3: &mut Vec<String>, ty: &str, lp: Option<&str>, srv: Option<&str>, nul_forbidden: bool) {
+    if let Some(lp) = lp {
+        if lp.contains(':') || (nul_forbidden && lp.contains('\0')) {
+            t3.push(format!("{ty}: the localpart accessor returns a string with ':' or NUL"));
+        }
+    }
+    if let Some(srv) = srv {
+        if <&ServerName>::try_from(srv).is_err() {
+            t3.push(format!("{ty}: server_name() returns a string the ServerName parser rejects"));
+        }
+    }
+}
+
+/// The specification's user ID grammars on a localpart: (current grammar, historical grammar).
+fn user_grammars(lp: &str) -> (bool, bool) {
+    let strict = !lp.is_empty()
+        && lp.bytes().all(|b| b.is_ascii_digit() || b.is_ascii_lowercase() || b"-.=_/+".contains(&b));
+    let historical = !lp.is_empty() && lp.bytes().all(|b| (0x21..=0x7e).contains(&b) && b != b':');
+    (strict, historical)
+}
+
 fn recompose(t3: &mut Vec<String>, what: &str, s: &str, parts: Option<String>) {
     if let Some(p) = parts {
         if p != s {
@@ -415,7 +438,16 @@ fn fields(kind: Kind, s: &str, t3: &mut Vec<String>) -> Vec<String> {
                 if id.validate_historical().is_ok() != (*h || *st) {
                     t3.push("validate_historical() != is_historical() || validate_strict()".into());
                 }
+                // against the specification's two grammars, on the localpart cut from the string
+                let (g_strict, g_hist) = user_grammars(&s[1..s.find(':').unwrap_or(s.len())]);
+                if *st != g_strict {
+                    t3.push("validate_strict() differs from the specification's user ID grammar".into());
+                }
+                if *h != (g_hist && !g_strict) {
+                    t3.push("is_historical() differs from the specification's historical user ID grammar".into());
+                }
             }
+            parts_ok(t3, "UserId", lp.as_deref().ok(), srv.as_deref().ok(), true);
             vec![tok(&lp), tok(&srv), btok(&strict), btok(&hist)]
         }
         Kind::Alias => {
@@ -428,6 +460,7 @@ fn fields(kind: Kind, s: &str, t3: &mut Vec<String>) -> Vec<String> {
                 s,
                 lp.as_ref().ok().zip(srv.as_ref().ok()).map(|(l, v)| format!("#{l}:{v}")),
             );
+            parts_ok(t3, "RoomAliasId", lp.as_deref().ok(), srv.as_deref().ok(), true);
             vec![tok(&lp), tok(&srv)]
         }
         Kind::Room => {
@@ -485,6 +518,7 @@ fn fields(kind: Kind, s: &str, t3: &mut Vec<String>) -> Vec<String> {
                     None => format!("${l}"),
                 }),
             );
+            parts_ok(t3, "EventId", lp.as_deref().ok(), srv.as_ref().ok().and_then(|v| v.as_deref()), false);
             vec![tok(&lp), otok(&srv)]
         }
         Kind::Server => {
@@ -727,6 +761,9 @@ fn run_voipver(tok: &str) -> Outcome {
     let b = serde_json::from_value::<VoipVersionId>(serde_json::json!(n)).map(|v| v.as_str().to_owned()).map_err(drop);
     if a != b {
         t3.push("VoipVersionId: TryFrom<UInt> and Deserialize(number) disagree".into());
+    }
+    if a.is_ok() != (n == 0) {
+        t3.push("VoipVersionId: an integer other than 0 is accepted (or 0 is rejected)".into());
     }
     if let Ok(v) = VoipVersionId::try_from(u) {
         if serde_json::to_value(&v).ok() != Some(serde_json::json!(0)) {
